@@ -1,11 +1,11 @@
 #!/bin/bash
 # Soundness sweep: every quick check at several seeds; prints any non-zero exit.
-# Usage: tools/sweep.sh "<seeds>" [tier]
-SEEDS=${1:-"2 3 4 5 6"}; TIER=${2:-quick}
+# Usage: tools/sweep.sh "<seeds>" [tier] ["<checks, e.g. 02 12 19>"]
+SEEDS=${1:-"2 3 4 5 6"}; TIER=${2:-quick}; CHECKS=${3:-"01 02 03 04 05 06 07 08 09 10 11 12 13 14 15 16 17 18 19 20"}
 [ -n "$VP_RUN_REPO" ] && export VERIF_REPO=$VP_RUN_REPO
 bad=0
 for s in $SEEDS; do
-  for i in 01 02 03 04 05 06 07 08 09 10 11 12 13 14 15 16 17 18 19 20; do
+  for i in $CHECKS; do
     out=$(VERIF_SEED=$s ./check C$i $TIER 2>&1); rc=$?
     if [ $rc -ne 0 ]; then bad=$((bad+1)); echo "!! seed=$s C$i exit=$rc"; echo "$out" | tail -25; fi
     echo "seed=$s C$i rc=$rc $(echo "$out" | grep -m1 '^property=' | sed 's/.*evaluations/evaluations/')"
